@@ -46,6 +46,9 @@ claim("C08", "def-use normal forms (clamp domain over the rounded model value, e
 claim("C09", "exact polynomial forms of the time scaling and group target + store/guard pairing of the inheritance rules + a crate-wide computed-value-is-used rule over the synthesis closure + dispatch guards, over rustc MIR",
       "Sound static decision of the structural clauses of C09: times are scaled by sampling_rate/(fperiod*1e7) with start/end from tokens 1/2 and the right argument roles; the two inheritance stores carry the stated sign guards; each known end fits parameters[next_state..state+nstate] to end - frames_so_far with the loop-carried updates on the right paths; no duration estimate in the synthesis closure is computed and dropped (the fallback for trailing untimed labels is appended); the alignment flag dispatches to the aligned path. Not decided: the full loop invariant and fractional-frame rounding.")
 
+claim("C01", "polynomial/structural def-use forms (buffer size, frame expansion), single-definition sharing of the duration vector, clamp-domain floor, control-dependence of stream-2 accesses, explicit-panic ledger over the synthesis call-graph closure with mechanical guards + audited table, over rustc MIR",
+      "Sound static decision of: samples = (frames - cursor) x fperiod with a fresh cursor of 0; one row per frame, frames = per-state flags expanded by the one shared duration vector; every value entering a duration vector >= 1; every label contributes states 2..2+nstate; every constant-stream-2 access is under num_streams > 2; no explicit panic construct (panic!/todo!/unwrap/expect/range slicing/integer division/precondition APIs) in the synthesis closure is unaudited. NOT decided: finiteness of samples, bounds/overflow checks inside the numeric kernels (counted, not judged).")
+
 
 def main():
     props = [json.loads(l) for l in open(os.path.join(VERIF, "properties.jsonl"))]
